@@ -383,7 +383,8 @@ _ALL_RX = ['a', 'dot', '^a', 'a|b', '[ab]+', '.*', 'a.', '\\.', 'ab']
 
 
 _RX_NAME = {'a': 'a', 'dot': 'dot', '^a': 'caret-a', 'a|b': 'a-or-b', '[ab]+': 'ab-plus', '.*': 'dot-star',
-            'a.': 'a-dot', '\\.': 'esc-dot', 'ab': 'ab', 'b': 'b', 'RX': 'RX'}
+            'a.': 'a-dot', '\\.': 'esc-dot', 'ab': 'ab', 'b': 'b', 'RX': 'RX',
+            'a|ab': 'a-or-ab', 'a|a.': 'a-or-a-dot', 'a*?': 'a-star-lazy'}
 _OP_NAME = {'==': 'eq', '!=': 'ne', '<': 'lt', '<=': 'le', '>': 'gt', '>=': 'ge'}
 
 
@@ -501,6 +502,13 @@ def obligations(tier: str) -> List[Ob]:
             if rx == '.*' and not full:
                 continue  # tool limitation: CrossHair's re.search never tries an empty match at the end of the text
             m('K1', ('matches', full, rx), n_cheap)
+    # a full match that needs backtracking into a later, longer alternative
+    m('K1', ('matches', True, 'a|ab'), n_cheap)
+    m('K1', ('matches', True, 'a|a.'), n_cheap)
+    m('K1', ('matches', True, 'a*?'), n_cheap)
+    if not quick:
+        m('K1', ('matches', False, 'a|ab'), n_cheap)
+        m('K1', ('matches', False, 'a|a.'), n_cheap)
     m('K1', ('not', ('empty',)))
     m('K1', ('not', ('matches', False, 'a')))
     m('K1', ('and', ('not', ('empty',)), ('numlines', '<=')))
@@ -519,6 +527,8 @@ def obligations(tier: str) -> List[Ob]:
         m('K2', (q, ('contents', ('matches', False, '^a'))))
         m('K2', (q, ('contents', ('matches', True, 'dot'))))
         m('K2', (q, ('contents', ('equals-lit', 'a'))))
+    m('K2', ('any', ('contents', ('matches', True, 'a|ab'))))
+    m('K2', ('every', ('contents', ('matches', True, 'a|a.'))))
     m('K2', ('every', ('contents', ('equals',))))
     m('K2', ('any', ('contents', ('numlines', '=='))))
     m('K2', ('any', ('and', ('U',), ('linenum', '>='))))
